@@ -59,6 +59,7 @@ def step (line : String) : String :=
   | "C23" :: ts => stepC23 ts
   | "C24" :: ts => stepC24 ts
   | "C25" :: ts => stepC25 ts
+  | "C26" :: ts => stepC19 ts
   | "C27" :: ts => stepC27 ts
   | "C28" :: ts => stepC28 ts
   | "C29" :: ts => stepC29 ts
